@@ -208,6 +208,7 @@ PROPS["C19"] = {
 
 PROPS["C11"] = {
     "level": "proof",
+    "widen": ("quick", 1),
     "streams": ["watch", "cache"],
     "ops": ["events", "history", "bigdir", "slowscan", "permrestore"],
     "timeout": 2400,
@@ -238,6 +239,7 @@ PROPS["C08"] = {
 
 PROPS["C12"] = {
     "level": "proof",
+    "widen": ("quick", 1),
     "streams": ["race"],
     "prebuild": [_core.build_race],
     "timeout": 3600,
@@ -254,6 +256,7 @@ PROPS["C12"] = {
 
 PROPS["C20"] = {
     "level": "proof",
+    "widen": ("quick", 1),
     "streams": ["reconf", "defaultapi"],
     "timeout": 2400,
     "trusted_base": ["closing an fsnotify watcher releases its inotify descriptor, its kernel watches and its reader goroutine (observed per case through /proc/self/fd, fdinfo and runtime.NumGoroutine)",
